@@ -24,6 +24,7 @@ mod util;
 mod workload;
 
 use framework::Property;
+use sampler::Sampler as _;
 use serde_json::json;
 
 fn props() -> Vec<Box<dyn Property>> {
@@ -146,6 +147,38 @@ fn main() {
             let mx = times.iter().map(|t| t.0).fold(0.0, f64::max);
             let avm = times.iter().map(|t| t.1).sum::<f64>() / times.len() as f64;
             say!("E={} depth<={} n={} build avg {:.4}s max {:.4}s; model avg {:.4}s", e, depth, times.len(), avg, mx, avm);
+        }
+        "bigtime" => {
+            // bigtime <E>: cost of a large star-like accepted graph (build, image,
+            // restore, samples)
+            quiet_panics();
+            let e: usize = args[2].parse().unwrap();
+            let mut rng = util::SplitMix::new(11);
+            hashkeys::reset(1);
+            ctx::install(usize::MAX, None, ctx::PreemptPlan::default());
+            let spec = workload::big_accepted_graph(&mut rng, e);
+            let t0 = std::time::Instant::now();
+            let b = sampler::build(&spec);
+            let tb = t0.elapsed().as_secs_f64();
+            if let sampler::Built::Ok(s) = b {
+                let t0 = std::time::Instant::now();
+                let img = s.image();
+                let ti = t0.elapsed().as_secs_f64();
+                let t0 = std::time::Instant::now();
+                let r = sampler::restore_tree(spec.d, &img, store::ReadBehaviour::plain());
+                let tr = t0.elapsed().as_secs_f64();
+                let ed = workload::gen_edge_data(&mut rng, &spec);
+                let st = sampler::Settings::plain();
+                let t0 = std::time::Instant::now();
+                for _ in 0..100 {
+                    let pt: Vec<u64> = (0..s.dimension()).map(|_| rng.unit_open().to_bits()).collect();
+                    let _ = s.sample_x(&pt, &ed, &st);
+                }
+                let ts = t0.elapsed().as_secs_f64();
+                say!("E={} build {:.3}s image {:.3}s restore {:.3}s ok={} 100 samples {:.3}s", e, tb, ti, tr, r.is_ok(), ts);
+            } else {
+                say!("E={} build {:.3}s: not accepted", e, tb);
+            }
         }
         "envcanary" => {
             quiet_panics();
